@@ -99,7 +99,6 @@ Inductive ent_res :=
 | EntEOF                          (* clean end *)
 | EntTorn                         (* unexpected EOF (also: EOF with pending fragments) *)
 | EntBad (rest : bytes) (frags : list bytes)   (* corrupt / invalid; reader positioned at rest *)
-| EntPanic                        (* FIRST record with empty payload: index out of range *)
 | EntFuel.
 
 Fixpoint read_entry (fuel : nat) (bs : bytes) (frags : list bytes) : ent_res :=
@@ -112,14 +111,19 @@ Fixpoint read_entry (fuel : nat) (bs : bytes) (frags : list bytes) : ent_res :=
     | RecBad rest => EntBad rest frags
     | RecOk ty data rest =>
         if ty =? RtFull then
-          match parse_entry data with
-          | Some e => EntOk e rest frags
-          | None => EntBad rest frags
+          match frags with
+          | _ :: _ => EntBad rest []       (* full record inside a fragmented entry *)
+          | [] =>
+            match parse_entry data with
+            | Some e => EntOk e rest []
+            | None => EntBad rest []
+            end
           end
         else if ty =? RtFirst then
-          match data with
-          | [] => EntPanic
-          | _ => read_entry f rest (frags ++ [data])
+          match frags, data with
+          | _ :: _, _ => EntBad rest []    (* first fragment inside a fragmented entry *)
+          | [], [] => EntBad rest []       (* empty first fragment *)
+          | [], _ => read_entry f rest [data]
           end
         else if ty =? RtMiddle then
           match frags with
@@ -137,7 +141,7 @@ Fixpoint read_entry (fuel : nat) (bs : bytes) (frags : list bytes) : ent_res :=
     end
   end.
 
-Inductive rstatus := Clean | TornTail | Damaged | Panic | OutOfFuel.
+Inductive rstatus := Clean | TornTail | Damaged | OutOfFuel.
 
 (* ReplayWALFile (repaired policy): entries up to the first torn or damaged record of the
    file; nothing after it is interpreted. *)
@@ -151,7 +155,6 @@ Fixpoint replay_file_aux (fuel : nat) (bs : bytes) (frags : list bytes) (acc : l
     | EntEOF => (rev acc, Clean)
     | EntTorn => (rev acc, TornTail)
     | EntBad _ _ => (rev acc, Damaged)
-    | EntPanic => (rev acc, Panic)
     | EntFuel => (rev acc, OutOfFuel)
     end
   end.
